@@ -201,10 +201,15 @@ def eval_rhs(r, st):
         items = r[1]
         probs = []
         for e, p in items:
-            probs.append(None if p is None else Fraction(p))
+            if isinstance(p, list):
+                probs.append(eval_expr(p, st))      # a probability that is a program expression
+            else:
+                probs.append(None if p is None else Fraction(p))
         if probs[-1] is None:
             probs[-1] = 1 - sum(p for p in probs[:-1])
         if any(p < 0 for p in probs) or sum(probs) != 1:
+            if any(isinstance(p, list) for _, p in items):
+                raise Inconclusive("state-dependent probabilities left [0,1]")
             raise RefRefuses("probabilities of a choice are negative or do not add up to 1")
         vals = [eval_expr(e, st) for e, _ in items]
         law, exact = _finite(list(zip(vals, probs)))
